@@ -153,7 +153,8 @@ func (sd SoftDeleteDeleteClause) ModifyStatement(stmt *Statement) {
 				stmt.AddClause(clause.Where{Exprs: []clause.Expression{clause.IN{Column: column, Values: values}}})
 			}
 
-			if stmt.ReflectValue.CanAddr() && stmt.Dest != stmt.Model && stmt.Model != nil {
+			// (a value handed to Delete by value is not addressable: the model is another value when it was given as a pointer)
+			if m := stmt.Model; m != nil && (stmt.ReflectValue.CanAddr() || reflect.ValueOf(m).Kind() == reflect.Ptr) && stmt.Dest != m {
 				_, queryValues = schema.GetIdentityFieldValuesMap(stmt.Context, reflect.ValueOf(stmt.Model), stmt.Schema.PrimaryFields)
 				column, values = schema.ToQueryValues(stmt.Table, stmt.Schema.PrimaryFieldDBNames, queryValues)
 
